@@ -105,6 +105,7 @@ pub const SEED_DOCS: &[&[Tok]] = &[
     &[Tok::Start("<svg>"), Tok::Start("<a/>"), Tok::Start("<b>"), Tok::End("</b>"), Tok::Start("<a>"), Tok::End("</svg>"), Tok::Start("<a>")],
     &[Tok::Start("<a>"), Tok::Start("<a/>"), Tok::Start("<b>"), Tok::Start("<b>"), Tok::End("</a>"), Tok::Start("<b>")],
     &[Tok::Start("<b>"), Tok::Start("<a>"), Tok::End("</a>"), Tok::Start("<a>"), Tok::End("</a>"), Tok::Start("<a class=c>"), Tok::End("</a>"), Tok::Start("<b>"), Tok::End("</b>"), Tok::Start("<a>"), Tok::End("</x>"), Tok::End("</b>"), Tok::Start("<a>")],
+    &[Tok::Start("<svg>"), Tok::Start("<link>"), Tok::Start("<a>"), Tok::End("</a>"), Tok::End("</link>"), Tok::Start("<a>"), Tok::End("</svg>"), Tok::Start("<link>"), Tok::Start("<a>")],
     &[Tok::Start("<a>"), Tok::Start("<b k=\"V w\">"), Tok::Start("<b k=\"w v\">"), Tok::Start("<b k=vw>"), Tok::Start("<b k=\"\">"), Tok::Start("<b k>"), Tok::Start("<b id=X class=C>"), Tok::Start("<b k=v k=zz>")],
 ];
 const VOID: &[&str] = &["area", "base", "br", "col", "embed", "hr", "img", "input", "link", "meta", "source", "track", "wbr"];
@@ -309,6 +310,15 @@ pub fn run_c04(max_len: usize) -> SelReport {
         for t in TOKS { doc.push(*t); rec(doc, max_len, sels, rep); doc.pop(); }
     }
     rec(&mut doc, max_len, &sels, &mut rep);
+    // pseudo-random longer tag sequences (fixed LCG seed: deterministic), mis-nesting included
+    let mut x: u64 = 0x9E3779B97F4A7C15;
+    let n_random = if max_len >= 5 { 6000 } else { 1500 };
+    for _ in 0..n_random {
+        let mut next = || { x = x.wrapping_mul(6364136223846793005).wrapping_add(1442695040888963407); (x >> 33) as usize };
+        let len = 6 + next() % 7;
+        let d: Vec<Tok> = (0..len).map(|_| TOKS[next() % TOKS.len()]).collect();
+        if rep.violations.len() < 5 { check_doc(&d, &sels, 24, &mut rep); }
+    }
     for d in SEED_DOCS {
         check_doc(d, &sels, 24, &mut rep);
         check_doc(d, &sels, 1, &mut rep);
